@@ -126,6 +126,8 @@ type Unit struct {
 	topParams []Val
 	blockCover map[int]int
 	preciseNote bool
+	evalDepth int
+	sideFacts []Term
 	qfPrelude string
 	pruned, pruneCalls int
 }
@@ -363,12 +365,35 @@ func (u *Unit) locsOf(p *Ptr) ([]loc, types.Type) {
 	return out, target
 }
 
+// leafIsRef: does the leaf hold a reference (pointer, map, chan, slice base)?
+func leafIsRef(lf Leaf) bool {
+	if lf.Role == "slice.b" {
+		return true
+	}
+	if lf.Role == "" && lf.T != nil {
+		switch lf.T.Underlying().(type) {
+		case *types.Pointer, *types.Map, *types.Chan:
+			return true
+		}
+	}
+	return false
+}
+
 func (u *Unit) readLoc(st *State, l loc) Term {
 	h := u.heapGet(st, l.comp, l.arrSort)
+	var t Term
 	if l.kind == "E" {
-		return fmt.Sprintf("(select (select %s %s) %s)", h, l.ref, l.idx)
+		t = fmt.Sprintf("(select (select %s %s) %s)", h, l.ref, l.idx)
+	} else {
+		t = fmt.Sprintf("(select %s %s)", h, l.ref)
 	}
-	return fmt.Sprintf("(select %s %s)", h, l.ref)
+	if u.evalDepth > 0 && leafIsRef(l.leaf) && !strings.Contains(t, "q_") && !strings.Contains(t, "qi_") {
+		// the heap is closed under allocation: a reference read from it (in whatever state the
+		// read is evaluated) was allocated in that state. Collected while a spec expression is
+		// evaluated and assumed on the path afterwards (explicit instance, no quantifier).
+		u.sideFacts = append(u.sideFacts, fmt.Sprintf("(and (<= 0 %s) (<= %s %s))", t, t, st.alloc))
+	}
+	return t
 }
 
 func (u *Unit) writeLoc(st *State, l loc, v Term) {
@@ -796,6 +821,13 @@ func (u *Unit) store(st *State, pv Val, v Val, pos token.Pos) {
 		}
 		for i, l := range locs {
 			u.writeLoc(st, l, v.Terms[i])
+		}
+		if p.Kind == PElem && len(p.Path) == 0 && numeral.MatchString(p.Idx) {
+			// remember what is stored in (varargs) arrays element by element
+			if st.info == nil {
+				st.info = map[string]Val{}
+			}
+			st.info["A"+p.Ref+"|"+p.Idx] = v
 		}
 		if len(locs) > 0 && (v.Fn != nil || v.Dyn != nil || v.Global != nil) {
 			if st.info == nil {
